@@ -238,13 +238,16 @@ def _gen_column():
     return "\n".join(out)
 
 
-M_COLUMN = KModule("column", "src/column.rs", "verif_column", "column.rs", _gen_column, deps=(M_LOG, M_TABLE))
+M_COLUMN = KModule("column", "src/column.rs", "verif_column", "column.rs", _gen_column, deps=(M_LOG, M_TABLE, M_INDEX))
 M_COLUMN.harnesses.append(H("u7_sizes_table", "U7"))
 for n in ["u7_compress_rk", "u7_compress_nn", "u7_compress_nk"]:
     M_COLUMN.harnesses.append(H(n, "U7", kind="bounded", bound="slice of 3 fixed tables + blob table with arbitrary entry sizes (the real vector has 255 + 1)"))
 for n in ["u8d_set_plain", "u8d_set_rc", "u8d_set_preimage", "u8d_reference_rc", "u8d_reference_plain", "u8d_dereference_rc", "u8d_dereference_plain"]:
     M_COLUMN.harnesses.append(H(n, "U8d", kind="bounded", shape="write_existing_value_plan: " + n[4:],
                                 bound="3 fixed tiers with arbitrary increasing sizes (largest >= 4096) + blob table, instead of the real 255 + 1"))
+for n in ["u15_reindex_plan_need0", "u15_reindex_plan_need1", "u15_reindex_plan_need2", "u15_plan_new_need0", "u15_plan_new_need1", "u15_plan_new_need2",
+          "u15_plan_existing_current", "u15_plan_existing_old"]:
+    M_COLUMN.harnesses.append(H(n, "U15", kind="bounded", shape=n[4:], bound="at most 2 consecutive index growths per operation; callees stubbed by contract"))
 M_COLUMN.harnesses.append(H("u11_child_count_representable", "U11"))
 for (n, d) in U11_WELL:
     M_COLUMN.harnesses.append(H("u11_well_c%d_d%d" % (n, d), "U11", kind="bounded", tiers=("thorough",) if n == 255 else ("quick", "thorough"),
@@ -291,7 +294,7 @@ PROPS = {
 TB = ["rustc, Kani 0.68, CBMC 6.11, kissat/CaDiCaL, Verus 0.2026.09.13, Z3 (the verifiers themselves)"]
 
 PROPS["C09"] = {
-    "kani_units": ["U1", "U3", "U4"],
+    "kani_units": ["U1", "U3", "U4", "U15"],
     "verus_units": ["index_search", "lookup_chain"],
     "level": "other",
     "technique": "Kani/CBMC contracts on the real index codec, page update and key recovery (complete over all pages/keys/index sizes) + Verus proof of the real collision-chain lookups against callee contracts",
@@ -325,7 +328,7 @@ PROPS["C06"] = {
     "does_not_cover": ["real part size 4096 / MiB values", "lz4 / snappy themselves", "write_existing_value_plan tier-move path", "reads through the mmap'd file (only the log view is modelled)"],
 }
 PROPS["C14"] = {
-    "kani_units": ["U14", "U3", "U1"],
+    "kani_units": ["U14", "U3", "U1", "U15"],
     "verus_units": [],
     "level": "other",
     "technique": "Kani/CBMC contracts on the real free-list operations and index page update (bounded tables / complete page proofs)",
@@ -397,6 +400,8 @@ UNIT_META = {
     "U8d": {"functions": ["column::Column::write_existing_value_plan"],
             "assumes": ["ValueTable::{write_replace_plan,write_remove_plan,write_insert_plan,write_inc_ref,write_dec_ref} replaced by their contracts (recorders asserting the callee precondition); the contracts are checked on the real functions under U6/U8/U14",
                         "Column::compress with NoCompression"]},
+    "U15": {"functions": ["column::HashColumn::{write_reindex_plan_locked,write_plan_new,write_plan_existing}"],
+            "assumes": ["IndexTable::{write_insert_plan,write_remove_plan}, HashColumn::{trigger_reindex,contains_partial_key_with_address}, Column::{write_new_value_plan,write_existing_value_plan} replaced by contracts (recorders); those contracts are the ones checked under U3/U13/U6/U8d, except trigger_reindex (assumed: same locks, fresh larger current index)"]},
     "U11": {"functions": ["column::{unpack_node_data,unpack_node_children,packed_node_size,packed_child_count}"], "assumes": []},
     "U14": {"functions": ["table::ValueTable::{clear_slot,next_free,read_next_free,complete_plan,write_remove_plan,clear_chain}"], "assumes": ["LogWriter ghost view"]},
     "index_search": {"functions": ["index::Entry::*", "index::Address::*", "index::IndexTable::{chunk_index,find_entry_base}"], "assumes": ["read_entry contract (external_body; proved by Kani U1.read_entry_is_le_word)"]},
